@@ -176,22 +176,58 @@ fn some_binder(fname: &str, f: &syn::ImplItemFn, scrutinee: &str) -> Result<Stri
     Ok(b.names.remove(0))
 }
 
-/// the `if <x>.len() == 1 { .. }` blocks of a function
+/// the single-key fast path of `add_keys`: `if <x>.len() == 1 { .. }` (taken whenever exactly one key of the list is new)
+/// or `if <n> == 1 && <x>.len() == 1 { .. }` (either order; `<n>` must be `let <n> = incoming_keys.len();`, the length of the
+/// ADVERTISEMENT — checked by the caller). `.1`: the identifier compared with 1 besides the `.len()` test, if any.
 struct SingleIfs<'a> {
-    v: Vec<&'a syn::Block>,
+    v: Vec<(&'a syn::Block, Option<String>)>,
     bad: Vec<String>,
+}
+fn len_is_one(e: &syn::Expr) -> Option<Result<(), String>> {
+    if let syn::Expr::Binary(b) = e {
+        let (l, r) = (toks(&b.left), toks(&b.right));
+        let op = quote::ToTokens::to_token_stream(&b.op).to_string();
+        let len_side = |s: &str| s.ends_with(".len()") && is_ident_like(s.trim_end_matches(".len()"));
+        if (len_side(&l) && r == "1") || (len_side(&r) && l == "1") {
+            return Some(if op == "==" { Ok(()) } else { Err(op) });
+        }
+    }
+    None
+}
+fn ident_is_one(e: &syn::Expr) -> Option<String> {
+    if let syn::Expr::Binary(b) = e {
+        let (l, r) = (toks(&b.left), toks(&b.right));
+        let op = quote::ToTokens::to_token_stream(&b.op).to_string();
+        if op == "==" {
+            if is_ident_like(&l) && !l.contains('.') && r == "1" {
+                return Some(l);
+            }
+            if is_ident_like(&r) && !r.contains('.') && l == "1" {
+                return Some(r);
+            }
+        }
+    }
+    None
 }
 impl<'ast> Visit<'ast> for SingleIfs<'ast> {
     fn visit_expr_if(&mut self, i: &'ast syn::ExprIf) {
-        if let syn::Expr::Binary(b) = &*i.cond {
-            let (l, r) = (toks(&b.left), toks(&b.right));
-            let op = quote::ToTokens::to_token_stream(&b.op).to_string();
-            let len_side = |s: &str| s.ends_with(".len()") && is_ident_like(s.trim_end_matches(".len()"));
-            if (len_side(&l) && r == "1") || (len_side(&r) && l == "1") {
-                if op == "==" {
-                    self.v.push(&i.then_branch);
-                } else {
-                    self.bad.push(op);
+        match len_is_one(&i.cond) {
+            Some(Ok(())) => self.v.push((&i.then_branch, None)),
+            Some(Err(op)) => self.bad.push(op),
+            None => {
+                if let syn::Expr::Binary(b) = &*i.cond {
+                    let op = quote::ToTokens::to_token_stream(&b.op).to_string();
+                    let sides = [(&*b.left, &*b.right), (&*b.right, &*b.left)];
+                    for (a, c) in sides {
+                        if let Some(r) = len_is_one(a) {
+                            match (r, ident_is_one(c), op.as_str()) {
+                                (Ok(()), Some(id), "&&") => self.v.push((&i.then_branch, Some(id))),
+                                (Ok(()), _, o) => self.bad.push(format!("`<list>.len() == 1` combined by `{o}` with `{}`", toks(c))),
+                                (Err(o), _, _) => self.bad.push(o),
+                            }
+                            break;
+                        }
+                    }
                 }
             }
         }
@@ -492,8 +528,25 @@ pub fn generate(repo: &PathBuf) -> Result<String, String> {
             singles.bad
         ));
     }
+    // two-sided: the fast path is taken for a single-key ADVERTISEMENT only (`<n> == 1 && <new>.len() == 1` with
+    // `let <n> = incoming_keys.len();` computed from the parameter before the filtering loop), or whenever one key is new
+    let fast_needs_single_advert = match &singles.v[0].1 {
+        None => false,
+        Some(id) => {
+            let body = quote::ToTokens::to_token_stream(&add.block).to_string().replace(' ', "");
+            let def = format!("let{id}=incoming_keys.len();");
+            let at_def = body.find(&def);
+            let at_loop = body.find("inincoming_keys{");
+            let is_param = add.sig.inputs.iter().any(|a| quote::ToTokens::to_token_stream(a).to_string().replace(' ', "").starts_with("incoming_keys:"));
+            let assigned = body.matches(&format!("{id}=")).count() - body.matches(&format!("{id}==")).count();
+            match (at_def, at_loop) {
+                (Some(a), Some(b)) if a < b && is_param && assigned == 1 => true,
+                _ => return Err(format!("add_keys: the fast path also tests `{id} == 1`, but `{id}` is not `let {id} = incoming_keys.len();` taken from the parameter before the filtering loop")),
+            }
+        }
+    };
     let mut fp = FastPath { file: &file, depth: 0, cond: 0, guarded: 0, guarded_without_insert: 0, direct_unconditional: 0, direct_conditional: 0, contains_key: 0 };
-    fp.visit_block(singles.v[0]);
+    fp.visit_block(singles.v[0].0);
     let fast_checks_ongoing = if fp.guarded == 1 && fp.guarded_without_insert == 0 && fp.direct_unconditional == 0 && fp.direct_conditional == 0 {
         // insert only through `Entry::Vacant(e)` of `self.on_going_fetches.entry(..)` (if-let or match, inline or in a helper)
         true
@@ -621,6 +674,7 @@ pub fn generate(repo: &PathBuf) -> Result<String, String> {
     s.push_str(&lean_cmp("farthestUnchanged", "set_farthest_on_full: `new OP old` returns without change (a = new, b = old)", &noshrink_op)?);
     s.push_str(&lean_cmp("farthestKeep", "set_farthest_on_full: `dist OP new_farthest_distance` retains an entry, both queues (a = distance, b = new farthest)", &keep_op)?);
     s.push_str(&format!("/-- add_keys: the single-key fast path inserts only through `Entry::Vacant` of on_going_fetches -/\ndef fastPathChecksOngoing : Bool := {}\n", lean_bool(fast_checks_ongoing)));
+    s.push_str(&format!("/-- add_keys: the single-key fast path (no range test, no queue) is taken only when the ADVERTISEMENT itself has one key (`total_incoming_keys == 1 && new_incoming_keys.len() == 1`); false = whenever exactly one key of the list is new (`new_incoming_keys.len() == 1`), which lets one new key of a periodic multi-record list skip the range test -/\ndef fastPathNeedsSingleAdvert : Bool := {}\n", lean_bool(fast_needs_single_advert)));
     s.push_str(&format!("/-- add_keys: a locally held key is skipped only when the held record type equals the advertised one -/\ndef skipHeldSameTypeOnly : Bool := {}\n", lean_bool(skip_same_type_only)));
     s.push_str(&format!("/-- next_keys_to_fetch: `prune_expired_keys_and_slow_nodes` runs before the `to_be_fetched.is_empty()` early return (or there is no such return); false = the early return comes first -/\ndef pruneBeforeEmptyQueueReturn : Bool := {}\n", lean_bool(prune_before_empty_return)));
     s.push_str("end SafeNet.Gen.Fetcher\n");
